@@ -237,8 +237,12 @@ func (w *World) calleeOf(common *ssa.CallCommon) *calleeInfo {
 		ci.key = "iface:" + shortenPaths(types.TypeString(it, nil)) + "." + common.Method.Name()
 		msig := common.Method.Type().(*types.Signature)
 		ci.sig = msig
-		ci.names = append([]string{"recv"}, sigParamNames(msig)...)
-		ci.ptypes = append([]types.Type{it}, sigParamTypes(msig)...)
+		ci.names = []string{"recv"}
+		ci.ptypes = []types.Type{it}
+		for i := 0; i < msig.Params().Len(); i++ {
+			ci.names = append(ci.names, msig.Params().At(i).Name())
+			ci.ptypes = append(ci.ptypes, msig.Params().At(i).Type())
+		}
 		ci.dynamic = true
 		if n, ok := it.(*types.Named); ok && n.Obj().Pkg() != nil {
 			ci.pkg = n.Obj().Pkg()
@@ -316,12 +320,10 @@ func (w *World) keysOfStoreAddr(addr ssa.Value, out map[string]bool) {
 		}
 		return
 	case *ssa.Global:
-		if v, ok := a.Object().(*types.Var); ok {
-			if s, ok := sortOf(et); ok {
-				key := "G_" + v.Pkg().Name() + "." + v.Name()
-				w.regHeap(key, s)
-				out[key] = true
-			}
+		if s, ok := sortOf(et); ok {
+			key := "G_" + a.Pkg.Pkg.Name() + "." + strings.ReplaceAll(a.Name(), "$", "S")
+			w.regHeap(key, s)
+			out[key] = true
 		}
 		return
 	}
@@ -613,7 +615,7 @@ func (fc *FnCtx) applyContract(ci *calleeInfo, args []Val, writes map[string]boo
 			if len(mods[k]) == 0 {
 				fc.assumeRaw(eq(nw, old))
 			}
-			fc.st.heap[k] = nw
+			fc.setHeap(k, nw)
 			continue
 		}
 		var inMods []Term
@@ -622,7 +624,7 @@ func (fc *FnCtx) applyContract(ci *calleeInfo, args []Val, writes map[string]boo
 		}
 		cond := and(not(app("isfresh", "o!h", allocPre)), not(or(inMods...)))
 		fc.assumeRaw("(forall ((o!h Int)) (! " + implies(cond, eq(sel(nw, "o!h"), sel(old, "o!h"))) + " :pattern (" + sel(nw, "o!h") + ")))")
-		fc.st.heap[k] = nw
+		fc.setHeap(k, nw)
 	}
 	// results
 	var res Val
@@ -733,7 +735,7 @@ func (fc *FnCtx) doAppend(x *ssa.Call) Val {
 		unsupported("append(bytes, string...)")
 	}
 	t := fc.term(args[1])
-	E := fc.st.Heap(key)
+	E := fc.define("apE0", arrSort(arrSort(es)), fc.st.Heap(key))
 	ln := fc.define("aplen", SInt, app("slen_", s))
 	n := fc.define("apn", SInt, app("slen_", t))
 	arr := app("sarr", s)
@@ -756,7 +758,7 @@ func (fc *FnCtx) doAppend(x *ssa.Call) Val {
 	fc.assumeRaw("(forall ((k!a Int)) (! (= (select " + inc + " k!a) (ite (and (<= (+ " + off + " " + ln + ") k!a) (< k!a (+ " + off + " " + ln + " " + n + "))) (select " + tc + " (+ " + app("soff", t) + " (- k!a (+ " + off + " " + ln + ")))) (select " + oldc + " k!a))) :pattern ((select " + inc + " k!a))))")
 	newcap := fc.fresh("apcap", SInt)
 	fc.assumeRaw(and(app("<=", app("+", ln, n), newcap), app("<=", newcap, "281474976710656")))
-	fc.st.heap[key] = fc.define("apE", arrSort(arrSort(es)), ite(inplace, store(E, arr, inc), store(E, r, newc)))
+	fc.setHeap(key, fc.define("apE", arrSort(arrSort(es)), ite(inplace, store(E, arr, inc), store(E, r, newc))))
 	res := fc.fresh("apres", SSlice)
 	fc.assumeRaw(eq(res, app("mkslice", ite(inplace, arr, r), ite(inplace, off, "0"), app("+", ln, n), ite(inplace, app("scap", s), newcap))))
 	return res
@@ -767,7 +769,7 @@ func (fc *FnCtx) doCopy(x *ssa.Call) Val {
 	dt := args[0].Type().Underlying().(*types.Slice)
 	key, es := fc.w.elemKey(dt.Elem())
 	d := fc.term(args[0])
-	E := fc.st.Heap(key)
+	E := fc.define("cpE0", arrSort(arrSort(es)), fc.st.Heap(key))
 	var srcAt func(k Term) Term
 	var sn Term
 	if _, isStr := args[1].Type().Underlying().(*types.Basic); isStr {
@@ -789,6 +791,6 @@ func (fc *FnCtx) doCopy(x *ssa.Call) Val {
 	doff := app("soff", d)
 	oldc := sel(E, app("sarr", d))
 	fc.assumeRaw("(forall ((k!c Int)) (! (= (select " + nc + " k!c) (ite (and (<= " + doff + " k!c) (< k!c (+ " + doff + " " + n + "))) " + srcAt(app("-", "k!c", doff)) + " (select " + oldc + " k!c))) :pattern ((select " + nc + " k!c))))")
-	fc.st.heap[key] = store(E, app("sarr", d), nc)
+	fc.setHeap(key, store(E, app("sarr", d), nc))
 	return n
 }
